@@ -105,7 +105,7 @@ def run(ctx):
             data, desc = fontsynth.gen_jump_font(r, fixed=True, ln=fixed[0], ret=fixed[1], ml=fixed[2]) if fixed else fontsynth.gen_jump_font(r)
             fi = add_font(data)
             for _ in range(2):
-                cps = [0x61] * fixed[3] + [0x62] + [0x63] * fixed[4] if fixed else fontsynth.gen_jump_text(r, long=not q)
+                cps = [0x61] * fixed[3] + [0x62] + [0x63] * fixed[4] if fixed else fontsynth.gen_jump_text(r, long=(not q) and desc["fixed"])      # (inserting rules on 1500-slot runs cost the Lean model minutes per line)
                 hx = "".join("%08x" % c for c in cps)
                 lines.append("F0=%d,0,f;S0=0,-1,-1,0,32,0,-1,%s;R0;D0;d0;X0;L0" % (fi, hx))
                 meta.append(("loop", "shape %s text=%s" % (desc["model"], hx)))
@@ -130,7 +130,7 @@ def run(ctx):
         res.harness.append("h_seg safety histories (implementation only)")
         res.rules.append("safety: synthesised fonts x dir flags 0..7 x 3 encodings (ill-formed UTF, astral, unmapped, long runs); looping state machines on runs of 10..130 glyphs; fonts with an operand one past its table; byte-mutated shipped fonts (%s) x 10 texts; make face/font/seg, loop report, full dump, destroy, leak check" % ", ".join(SHIPPED))
         loopm = [(k, m[1]) for k, m in enumerate(meta) if m[0] == "loop"]
-        lm = lib.run_lines([lib.driver_path(), "shape"], [x[1] for x in loopm], per_chunk=60) if ctx.model_ok and loopm else []
+        lm = lib.run_lines([lib.driver_path(), "shape"], [x[1] for x in loopm], per_chunk=60, line_timeout=600) if ctx.model_ok and loopm else []
         lmodel = {k: o for (k, _), o in zip(loopm, lm)}
         for k, (l, o, m) in enumerate(zip(lines, impl, meta)):
             res.evaluations += 1
